@@ -181,6 +181,8 @@ def scene_to_dict(scene, use_base64=False, include_metadata=True):
     # save some basic data about the scene
     export = {
         "graph": scene.graph.to_edgelist(),
+        # the edges are only meaningful relative to the base frame
+        "base_frame": scene.graph.base_frame,
         "geometry": {},
         "scene_cache": {
             "bounds": scene.bounds.tolist(),
